@@ -308,6 +308,9 @@ impl Service {
                 if !instance.is_enable_timeout() || instance.last_modified_millis > offline_time {
                     continue;
                 }
+            } else {
+                // deregistered meanwhile: nothing to expire and nothing to tell the other nodes
+                continue;
             }
             self.remove_instance(&key, None);
             remove_list.push(key);
@@ -318,6 +321,9 @@ impl Service {
                 if !instance.is_enable_timeout() || instance.last_modified_millis > healthy_time {
                     continue;
                 }
+            } else {
+                // deregistered meanwhile: nothing to expire and nothing to tell the other nodes
+                continue;
             }
             self.update_instance_healthy_invalid(&key);
             update_list.push(key);
